@@ -157,6 +157,8 @@ def run(ctx, model=None):
     N = 150 if ctx.quick() else 3000
     for k in range(N):
         games.append(gen.stopping_game(rng))
+    for k in range(30 if ctx.quick() else 200):
+        games.append(gen.decimal_sum_game(rng))
     # unsolvable games (initial state cannot reach / is forced away from the final state)
     k = 0
     while k < (10 if ctx.quick() else 100):
@@ -164,12 +166,52 @@ def run(ctx, model=None):
         if impl.solve(g, True, want_nodes=False)["outcome"] == "ValueError:nosolution":
             games.insert(rng.randrange(len(games)), g)
             k += 1
+    tie_games = [gen.layered_tie_game(rng) for _ in range(12 if ctx.quick() else 100)] + \
+        [gen.slow_cycle_game(rng) for _ in range(4)]
+    hashseed_stability(ctx, tie_games)
     for i, g in enumerate(games):
         unsolv = impl.solve(g, True, want_nodes=False)["outcome"] != "ok" if ctx.quick() else False
-        for ops in (seqs if (not ctx.quick() or i % 3 == 0 or unsolv) else [seqs[i % len(seqs)]]):
+        special = g.get("_meta", {}).get("family") == "decimal_sum"
+        for ops in (seqs if (not ctx.quick() or i % 3 == 0 or unsolv or special) else [seqs[i % len(seqs)]]):
             check_case(ctx, g, ops, model if ops is seqs[0] or ctx.quick() else None)
         if ctx.time_left() < 0:
             break
+
+
+def hashseed_stability(ctx, games):
+    """a fresh interpreter with a different string-hash seed must return the same results (set / dict
+    iteration order must not leak into strategies)"""
+    import json, os, subprocess, sys, tempfile
+    from crlib import REPO
+    prog = ("import json,sys\nsys.path.insert(0, %r)\nimport logging\nlogging.disable(logging.CRITICAL)\n"
+            "from tad import StochasticGame\nout=[]\n"
+            "for g in json.load(open(sys.argv[1])):\n"
+            "    g['transition_list']=[[tuple(t) for t in r] for r in g['transition_list']]\n"
+            "    for p in (True, False):\n"
+            "        try:\n            out.append(repr(StochasticGame(**g, prune_states=p).solve()))\n"
+            "        except Exception as e:\n            out.append(type(e).__name__)\n"
+            "print(json.dumps(out))\n") % REPO
+    with tempfile.NamedTemporaryFile("w", suffix=".json", delete=False) as f:
+        json.dump([gen.desc(g) for g in games], f)
+        path = f.name
+    try:
+        outs = []
+        for hs in ("1", "2", "3", "123"):
+            p = subprocess.run([sys.executable, "-c", prog, path], capture_output=True, text=True, timeout=120,
+                               env=dict(os.environ, PYTHONHASHSEED=hs, PYTHONDONTWRITEBYTECODE="1"))
+            outs.append(p.stdout.strip().split("\n")[-1] if p.returncode == 0 else "rc=%d %s" % (p.returncode, p.stderr[-200:]))
+    finally:
+        os.unlink(path)
+    ctx.case({"fresh_interpreters_with_hash_seeds": len(games)}, True)
+    if len(set(outs)) != 1:
+        a, b = json.loads(outs[0]) if outs[0].startswith("[") else outs[0], None
+        for o in outs[1:]:
+            if o != outs[0]:
+                b = json.loads(o) if o.startswith("[") else o
+                break
+        idx = next((i for i, (x, y) in enumerate(zip(a, b)) if x != y), 0) if isinstance(a, list) and isinstance(b, list) else 0
+        ctx.violation("identical-in-a-fresh-interpreter", {"game": gen.desc(games[idx // 2]), "ops": [[idx % 2 == 0, None]]},
+                      {"one": a[idx][:300] if isinstance(a, list) else a, "other": b[idx][:300] if isinstance(b, list) else b})
 
 
 def replay(ctx, viol):
